@@ -2212,3 +2212,30 @@ V("C19", "hash_memo_keyed_by_python_hash", "fire", "R19.m", (NG, "        pairs 
 V("C19", "benign_hash_memo_keyed_by_the_inputs", "benign", None, (NG, "        pairs = [self._rational(val) for val in vals]\n", "        self.__dict__.setdefault('_memo', {})\n        if vals in self._memo:\n            return self._memo[vals]\n        pairs = [self._rational(val) for val in vals]\n"))
 V("C20", "dict_values_compared_in_insertion_order", "fire", "R20.e", (Z, "        for k in obj1:\n            if k in obj2:\n                if not cls.is_equal(obj1[k], obj2[k]):\n                    return False\n            else:\n                return False\n        return True", "        if obj1.keys() != obj2.keys():\n            return False\n        return cls.compare_iterator(list(obj1.values()), list(obj2.values()))"))
 V("C18", "list_subclass_equal_to_a_plain_list", "fire", "R18.q", (Z, "    def compare_iterator(cls, obj1, obj2):\n        if type(obj1) is not type(obj2) or len(obj1) != len(obj2):", "    def compare_iterator(cls, obj1, obj2):\n        if not (isinstance(obj1, type(obj2)) or isinstance(obj2, type(obj1))) or len(obj1) != len(obj2):"))
+V("C16", "empty_selector_schema_with_an_empty_anyof", "fire", "R16.w", ("param/serializer.py", "                             for obj in p.objects.values()]\n            # anyOf must not be empty (a Selector without objects)\n            schema = {'anyOf': allowed_types} if allowed_types else {}", "                             for obj in p.objects.values()]\n            schema = {'anyOf': allowed_types}"))
+V("C16", "benign_empty_selector_schema_guard_as_a_statement", "benign", None, ("param/serializer.py", "                             for obj in p.objects.values()]\n            # anyOf must not be empty (a Selector without objects)\n            schema = {'anyOf': allowed_types} if allowed_types else {}", "                             for obj in p.objects.values()]\n            schema = {}\n            if allowed_types:\n                schema['anyOf'] = allowed_types"))
+V("C02", "repaired_constant_refused_before_validation", "benign", None, (Z, """        self._validate(val)
+
+        _old = NotImplemented
+        # obj can be None if __set__ is called for a Parameterized class
+        if self.constant or self.readonly:
+            if self.readonly:
+                raise TypeError("Read-only parameter '%s' cannot be modified" % name)
+            elif obj is None:""", """        if self.readonly:
+            raise TypeError("Read-only parameter '%s' cannot be modified" % name)
+        if (self.constant and obj is not None and obj._param__private.initialized
+                and val is not obj._param__private.values.get(self.name, self.default)):
+            raise TypeError("Constant parameter '%s' cannot be modified" % name)
+
+        self._validate(val)
+
+        _old = NotImplemented
+        # obj can be None if __set__ is called for a Parameterized class
+        if self.constant or self.readonly:
+            if obj is None:"""), (Z, """                _old = obj._param__private.values.get(self.name, self.default)
+                if val is not _old:
+                    raise TypeError("Constant parameter '%s' cannot be modified" % name)
+        else:""", """                _old = obj._param__private.values.get(self.name, self.default)
+        else:"""))
+for _p in ("C01", "C03", "C05", "C07", "C08", "C10", "C12", "C14"):
+    V(_p, "repaired_constant_refused_before_validation", "benign", None, *[v for v in VARIANTS if v["name"] == "repaired_constant_refused_before_validation" and v["prop"] == "C02"][0]["edits"])
